@@ -58,9 +58,13 @@ fn verif_replay() {
                 "rotate" => { if tx.send(None).await.is_err() { break; } }
                 _ => { closed = true; break; }
             }
-            tokio::task::yield_now().await;
-            tokio::time::sleep(std::time::Duration::from_millis(20)).await;
+            // paced: the writer sees each event on its own; burst: all events are queued before the writer gets to run
+            if !a["burst"].as_bool().unwrap_or(false) {
+                tokio::task::yield_now().await;
+                tokio::time::sleep(std::time::Duration::from_millis(20)).await;
+            }
         }
+        tokio::time::sleep(std::time::Duration::from_millis(50)).await;
         let ended_early = task.is_finished();
         drop(tx);
         let res = tokio::time::timeout(std::time::Duration::from_millis(500), task).await;
